@@ -686,7 +686,7 @@ V("C03", "pijul-membership-inverted", "F", "R5", R + "vcs.py", "return path not 
 V("C08", "shebang-lines-by-splitlines", "F", "R3", HDP, "    for line in StringIO(text):\n", "    for line in text.splitlines(keepends=True):\n")
 V("C08", "shebang-lines-by-lookbehind-split", "S", "", HDP, "    for line in StringIO(text):\n", "    for line in re.split(r\"(?<=\\n)\", text):\n")
 V("C08", "shebang-table-left-after-first-entry", "F", "R3", HDP, "                before, after = _extract_shebang(shebang, after)\n            else:\n                continue\n            break\n", "                before, after = _extract_shebang(shebang, after)\n            else:\n                pass\n            break\n")
-V("C08", "shebang-loop-breaks-in-branches", "S", "", HDP, "                before, after = _extract_shebang(shebang, after)\n            else:\n                continue\n            break\n", "                before, after = _extract_shebang(shebang, after)\n                break\n")
+V("C08", "shebang-loop-breaks-in-branches", "S", "", HDP, "                before, header = _extract_shebang(shebang, header)\n            elif after.startswith(shebang) and not any((before, header)):\n                before, after = _extract_shebang(shebang, after)\n            else:\n                continue\n            break\n", "                before, header = _extract_shebang(shebang, header)\n                break\n            elif after.startswith(shebang) and not any((before, header)):\n                before, after = _extract_shebang(shebang, after)\n                break\n")
 # --merge-copyrights on a file without header
 V("C10", "merge-only-with-existing-header", "F", "R10", HDP, "    elif merge_copyrights:\n        # Write the requested lines the way a later run would merge them.\n        reuse_info = reuse_info.copy(\n            copyright_lines=merge_copyright_lines(reuse_info.copyright_lines)\n        )\n", "")
 V("C09", "merged-request-without-header", "S", "", HDP, "    elif merge_copyrights:\n        # Write the requested lines the way a later run would merge them.\n", "    elif merge_copyrights:\n        # the request is written in merged form\n")
@@ -708,3 +708,15 @@ V2("C05", "empty-glob-filter-under-prefix-match", "F", "R1", [
     (GLP, '"|".join(translate(path) for path in self.paths), re.DOTALL\n', '"|".join(translate(path) for path in self.paths if path), re.DOTALL\n'),
     (GLP, "return bool(self._paths_regex.fullmatch(path))", "return bool(self._paths_regex.match(path))")])
 V("C05", "empty-glob-filter-under-fullmatch", "S", "", GLP, '"|".join(translate(path) for path in self.paths), re.DOTALL\n', '"|".join(translate(path) for path in self.paths if path), re.DOTALL\n')
+# second triage of the sweep's silent survivors
+V("C03", "hg-every-directory-a-submodule", "F", "R5", R + "vcs.py", "    def is_submodule(self, path: StrPath) -> bool:\n        # TODO: Implement me.\n        return False\n", "    def is_submodule(self, path: StrPath) -> bool:\n        # TODO: Implement me.\n        return True\n")
+V("C03", "recursive-children-not-resolved", "F", "R4", CAP, "        all_files = [path.resolve() for path in project.all_files()]\n", "        all_files = [path for path in project.all_files()]\n")
+V("C03", "recursive-directory-not-resolved", "F", "R4", CAP, "                    if path.resolve() in child.parents\n", "                    if path in child.parents\n")
+V("C08", "new-header-loop-goes-on-after-extraction", "F", "R3", HDP, "                shebang, text = _extract_shebang(shebang_prefix, text)\n                break\n", "                shebang, text = _extract_shebang(shebang_prefix, text)\n")
+V("C08", "new-header-extracts-when-not-matching", "F", "R3", HDP, "            if text.startswith(shebang_prefix):\n", "            if not text.startswith(shebang_prefix):\n")
+V("C16", "toml-expression-error-swallowed", "F", "R8", GLP, "        except (ExpressionError, ParseError) as error:\n            raise GlobalLicensingParseValueError(", "        except (ExpressionError, ParseError) as error:\n            continue\n            raise GlobalLicensingParseValueError(")
+V("C13", "lines-output-not-echoed", "F", "R9", R + "cli/lint.py", "        click.echo(format_lines(report), nl=False)\n", "        format_lines(report)\n")
+V("C13", "json-and-lines-swapped", "F", "R9", R + "cli/lint.py", "        click.echo(format_json(report), nl=False)\n    elif lines:\n        click.echo(format_lines(report), nl=False)\n", "        click.echo(format_lines(report), nl=False)\n    elif lines:\n        click.echo(format_json(report), nl=False)\n")
+V("C13", "json-sets-not-serialised", "F", "R10", R + "lint.py", "        default=custom_serializer,\n", "")
+V("C13", "plain-files-without-licence-not-listed", "F", "R1", R + "lint.py", "            for file in sorted(files_without_licenses_excl):\n                output.write(f\"* {file}\\n\")\n", "            for file in sorted(files_without_licenses_excl):\n                pass\n")
+V("C09", "empty-style-clears-only-a-found-header", "S", "", HDP, "    if style is EmptyCommentStyle:\n        after = \"\"\n", "    if style is EmptyCommentStyle and header:\n        after = \"\"\n")
